@@ -171,6 +171,10 @@ func (s *ScopeSchema) Root() string {
 	return s.RootValue
 }
 
+func (s *ScopeSchema) underlyingScope() *ScopeSchema {
+	return s
+}
+
 // NewTypedScopeSchema returns a new scope that is typed.
 func NewTypedScopeSchema[T any](rootObject *ObjectSchema, objects ...*ObjectSchema) *TypedScopeSchema[T] {
 	var defaultValue T
